@@ -20,6 +20,9 @@ type Ev interface {
 	TypeIdx() int
 }
 
+// Identified is a non-empty interface that every pooled event type implements.
+type Identified interface{ GetID() int }
+
 // Tag carries a slot index in a type parameter.
 type Tag interface{ Idx() int }
 
@@ -82,6 +85,9 @@ type TypeOps struct {
 	// (PublishContext[any]): the bus routes by the event's dynamic type, so this is the same
 	// publish as PubCtx as far as any property is concerned.
 	PubAny func(bus *eventbus.EventBus, ctx context.Context, id int)
+	// PubIface publishes the same event held in a variable of a non-empty interface type
+	// (type inference makes that interface the type parameter, as with `var err error`).
+	PubIface func(bus *eventbus.EventBus, ctx context.Context, id int)
 	// SubCustom subscribes a fresh closure (so it has its own identity only through the
 	// returned unsubscribe function) whose body and filter are given by the harness.
 	SubCustom func(bus *eventbus.EventBus, body func(ctx context.Context, id int), filter func(id int) bool, o SubOpts) (unsub func() error, err error)
@@ -179,6 +185,10 @@ func mkOps[T Ev](idx int) *TypeOps {
 		},
 		PubAny: func(bus *eventbus.EventBus, ctx context.Context, id int) {
 			eventbus.PublishContext[any](bus, ctx, T{ID: id})
+		},
+		PubIface: func(bus *eventbus.EventBus, ctx context.Context, id int) {
+			var ev Identified = T{ID: id}
+			eventbus.PublishContext(bus, ctx, ev)
 		},
 		SubCustom: func(bus *eventbus.EventBus, body func(ctx context.Context, id int), filter func(id int) bool, o SubOpts) (func() error, error) {
 			var l []eventbus.SubscribeOption
